@@ -306,6 +306,7 @@ struct scanner_s {
     void *char_source;
     read_chars_f read_func;
     int at_eof;
+    int cr_pending;         /* Whether the most recent read ended in a CR (already presented as a newline) */
 
     /* cif version */
     int cif_version;
